@@ -82,6 +82,12 @@ def isRefresh (w : World) (i : InstW) (op : PendingOp) : Bool :=
      | _ => false)
   | _, _ => false
 
+/-- Is this update a refresh attempt of the running term (same identity and token as the flag)? -/
+def isRefresh0 (x : InstW) (op : PendingOp) : Bool :=
+  match op.val with
+  | .own id tok _ => id == x.cfg.id && tok == x.flagTok
+  | _ => false
+
 /-- flags currently raised for `key`. -/
 def claimants (w : World) (key : String) : List InstW := w.insts.filter fun x => x.flag ∧ x.cfg.key = key
 
@@ -208,7 +214,11 @@ def deadlines (w : World) (t : Nat) : World :=
     | some (r, foreign) =>
       if r + verifyWindow x.cfg < t then
         let acc := acc.updInst x.cfg.id fun y => { y with verifyOpen := none }
-        checkW acc (!(foreign && x.flag)) "C11" "reconnect-verification-missing"
+        -- (the verification's reads must have been answered: an instance whose operations never reach the store, or are
+        -- never answered, is demoted by its heartbeat time-outs instead — C03)
+        let unanswered := acc.ops.any fun p => p.inst == x.cfg.id && decide (r ≤ p.issued) &&
+          (p.applied == some Applied.dropped || p.applied == some Applied.fault || p.applied == none)
+        checkW acc (!(foreign && x.flag) || unanswered || x.cut) "C11" "reconnect-verification-missing"
           s!"instance {x.cfg.id} still leads {verifyWindow x.cfg} ns after the reconnect notification at {r} although the record was never its own"
       else acc
     | none => acc) w
@@ -356,7 +366,15 @@ def step (m : MState) (e : TEv) : MState :=
     | some p =>
       let w := { w0 with ops := w0.ops.filter (·.id ≠ op) }
       let w := match r, p.kind with
-        | .ok rev _, .create | .ok rev _, .update => w.updInst p.inst fun y => { y with lastAckRev := rev }
+        | .ok rev _, .create => w.updInst p.inst fun y => { y with lastAckRev := rev, lastAckAt := e.t }
+        | .ok rev _, .update =>
+          -- the heartbeat loop gives up on an attempt after its time-out: an answer that arrives later is discarded (HB model),
+          -- so it does not count as the leader's latest acknowledged write
+          let late := match w.inst? p.inst with
+            | some x => x.flag && isRefresh0 x p && decide (p.issued + hbTimeout x.cfg < e.t)
+            | none => false
+          if late then w else w.updInst p.inst fun y => { y with lastAckRev := rev, lastAckAt := e.t }
+        | .err _, .delete => w.updInst p.inst fun y => { y with lastDeleteFailedAt := some e.t }
         | _, _ => w
       -- C06: an instance that has just seen a store failure counts as a healthy candidate from now on at the earliest
       let w := match r with
@@ -554,11 +572,15 @@ def step (m : MState) (e : TEv) : MState :=
           let mine := match w.live x.cfg.key with
             | some rr => (match rr.val with | .own id _ _ => id == i && rr.writer == i | _ => false)
             | none => false
-          -- owner at the call, or of a record that was written during the call and acknowledged to the instance
+          -- "the record's owner": the instance led with that record when the call began, or learnt during the call (an
+          -- acknowledgement that arrived after the call began) that a write of its current run is the live record.
+          -- A record left behind by a term that ended before the call (self-demotion, an earlier run) is not owned.
           let ackedMine := match w.live x.cfg.key with
-            | some rr => mine && decide (x.lastAckRev = rr.rev) && (match rr.val with | .own _ tok _ => x.runToks.contains tok | _ => false)
+            | some rr => mine && decide (x.lastAckRev = rr.rev) && decide (a.t ≤ x.lastAckAt) && (match rr.val with | .own _ tok _ => x.runToks.contains tok | _ => false)
             | none => false
-          checkW w (!(del && mine && (a.ownerAtCall || ackedMine))) "C09" "record-survives-deletekey" s!"instance {i}: its record is still live when StopWithContext(DeleteKey) returns"
+          -- (a Delete that the store refused, lost or did not answer cannot have removed anything)
+          let delFailed := match x.lastDeleteFailedAt with | some td => decide (a.t ≤ td) | none => false
+          checkW w (!(del && mine && ((a.ownerAtCall && a.flagAtCall) || ackedMine)) || delFailed || x.cut) "C09" "record-survives-deletekey" s!"instance {i}: its record is still live when StopWithContext(DeleteKey) returns"
         | .stop, _ | .stopctx _ _ _ _, _ => w.setInst { x with stopsInProgress := x.stopsInProgress - 1, opsDuringStop := [] }
         | .validate _, .verdict true tok _ =>
           checkW (w.hit "C04:validate-true")  (tok != 0 && a.sawValid.contains tok && a.flagAtCall && tok == a.tokAtCall) "C04" "validate-true-unsound"
